@@ -34,7 +34,7 @@ type c12 struct {
 func (*c12) ID() string    { return "C12" }
 func (*c12) Level() string { return "exploration" }
 func (*c12) Rule() string {
-	return "call sequences over {Next, Scan, Err, Close} issued from one goroutine against a fresh interpreter, for 11 query kinds (0/1/2/3 answers via member/2, one deterministic answer, throw/1 after 0/1/2 answers, a built-in type error after 1 answer, repeat = infinite, 2 answers then infinite; every answer is preceded by a write/1 of the answer). quick: ALL sequences of length <= 5 per kind + a seeded sample of 3000 of length 6 + for 6 pairs of kinds ALL interleavings of two sequences of length <= 2 on two open Solutions of one interpreter + a seeded sample of 4000 interleavings of two sequences of length 3 over all pairs of kinds. thorough: ALL sequences of length <= 7 per kind and of length 8 for 3 kinds, ALL interleavings of two sequences of length <= 2 for all 121 pairs of kinds and of length <= 3 for 3 pairs; the sequences of length <= 4, the length <= 2 interleavings of the 6 pairs and every 61st longer interleaving run a second time in a worker built with -race. The worker then closes whatever the sequence left open and waits for the goroutine count to return to its baseline. Oracle: sequential model (Next true once per answer in order, then false; false after error/Close; Scan = current answer; Err = nil until the error was reached; Close nil once then ErrClosed; user_output is a prefix of the query's write stream, contains the writes every returned Next depended on, and does not grow after Close; no library goroutine parked in a channel operation survives Close); blocking = runtime deadlock detector ('all goroutines are asleep'), panics = process death or recovered panic of the call. Non-trivial: the requested sequence contains a call made after that Solutions had reached a terminal state (exhausted / error / closed); distinct by (kinds, sequences, merge order)."
+	return "call sequences over {Next, Scan, Err, Close} issued from one goroutine against a fresh interpreter, for 15 query kinds (0/1/2/3 answers via member/2, three answers of which the middle one leaves X unbound, one deterministic answer, throw/1 after 0/1/2 answers, a built-in type error after 1 answer, repeat = infinite, 2 answers then infinite; every answer is preceded by a write/1 of the answer). quick: ALL sequences of length <= 5 per kind + a seeded sample of 3000 of length 6 + for 6 pairs of kinds ALL interleavings of two sequences of length <= 2 on two open Solutions of one interpreter + a seeded sample of 4000 interleavings of two sequences of length 3 over all pairs of kinds. thorough: ALL sequences of length <= 7 per kind and of length 8 for 3 kinds, ALL interleavings of two sequences of length <= 2 for all 121 pairs of kinds and of length <= 3 for 3 pairs; the sequences of length <= 4, the length <= 2 interleavings of the 6 pairs and every 61st longer interleaving run a second time in a worker built with -race. The worker then closes whatever the sequence left open and waits for the goroutine count to return to its baseline. Every Scan is repeated into a destination (struct with an interface{} field) that already received the earlier answers of that Solutions and must report the same value. QuerySolution: every kind x every sequence over {Scan, Err} (quick: length <= 3, thorough: <= 5, incl. no call at all): Err nil iff there is an answer, Scan = first answer, goroutine count back at its baseline although the caller has nothing to close. Oracle: sequential model (Next true once per answer in order, then false; false after error/Close; Scan = current answer; Err = nil until the error was reached; Close nil once then ErrClosed; user_output is a prefix of the query's write stream, contains the writes every returned Next depended on, and does not grow after Close; no library goroutine parked in a channel operation survives Close); blocking = runtime deadlock detector ('all goroutines are asleep'), panics = process death or recovered panic of the call. Non-trivial: the requested sequence contains a call made after that Solutions had reached a terminal state (exhausted / error / closed); distinct by (kinds, sequences, merge order)."
 }
 func (*c12) Assumptions() []string {
 	return []string{
@@ -92,11 +92,14 @@ func (m *c12Model) stream(n int) string {
 	return sb.String()
 }
 
-var c12Kinds = []string{"ans0", "ans1", "ans2", "ans3", "det1", "throw0", "throw1", "throw2", "typeerr1", "inf", "infdet", "cut1", "cutalt", "goeager3"}
+var c12Kinds = []string{"ans0", "ans1", "ans2", "ans3", "det1", "throw0", "throw1", "throw2", "typeerr1", "inf", "infdet", "cut1", "cutalt", "goeager3", "gap3"}
 
 // symbols: Solutions A works with atoms, B with integers, so that bytes on the shared user_output can be
 // attributed to the query that wrote them.
 var c12Syms = [2][6]string{{"w", "p", "q", "r", "z", "k"}, {"0", "1", "2", "3", "9", "7"}}
+
+// c12Unbound: what Scan(map[string]interface{}) reports for a variable the answer leaves unbound, as JSON.
+const c12Unbound = "null"
 
 func c12Slot(b byte) int {
 	switch {
@@ -154,6 +157,10 @@ func c12Query(kind string, slot int) (string, *c12Model) {
 			return fmt.Sprintf("sub_atom(%s, _, 1, _, X), put_char(user_output, X).", txt), m
 		}
 		return fmt.Sprintf("sub_atom('%s', _, 1, _, Y), atom_codes(Y, [C]), X is C - 48, put_char(user_output, Y).", txt), m
+	case kind == "gap3":
+		// three answers, the middle one leaves X unbound (a destination that received the first answer must not keep it)
+		m.Steps = []c12Step{ans(elems[0]), {Out: w, Kind: 'a', Val: c12Unbound}, ans(elems[2]), {Kind: 'x'}}
+		return fmt.Sprintf("(X = %s, write(X) ; write(%s) ; X = %s, write(X)).", elems[0], w, elems[2]), m
 	case kind == "cut1" || kind == "cutalt":
 		// queries made of cuts only: their single answer carries the EMPTY environment (a nil *engine.Env), which
 		// must still count as an answer; there is no variable X, so Scan reports it as absent
@@ -213,6 +220,8 @@ type c12Meta struct {
 	Ops   []string `json:"ops"`
 	Order string   `json:"order,omitempty"`
 	Race  bool     `json:"race,omitempty"` // run a second time in a worker built with -race (thorough tier)
+	// Single: opened with QuerySolution (Scan and Err only; the library closes the search by itself)
+	Single bool `json:"single,omitempty"`
 }
 
 func (m *c12Meta) order() string {
@@ -243,7 +252,7 @@ func (m *c12Meta) key(n int) string {
 }
 
 func c12Item(m *c12Meta) *Item {
-	p := proto.SolSeq{Ops: m.Ops, Order: m.Order}
+	p := proto.SolSeq{Ops: m.Ops, Order: m.Order, Solution: m.Single}
 	for i, k := range m.Kinds {
 		q, _ := c12Query(k, i)
 		p.Queries = append(p.Queries, q)
@@ -347,6 +356,12 @@ func (c *c12) plan(cx *Ctx) {
 			for _, k := range c12Kinds {
 				items = append(items, single(k, 1, 5)()...)
 			}
+			// QuerySolution: every kind x every sequence over {Scan, Err} of length <= 3 (incl. no call at all)
+			for _, k := range c12Kinds {
+				for _, ops := range []string{"", "E", "S", "EE", "ES", "SE", "SS", "EEE", "SES", "ESE", "SSE"} {
+					items = append(items, c12Item(&c12Meta{Kinds: []string{k}, Ops: []string{ops}, Single: true}))
+				}
+			}
 			r := cx.Rng("c12/len6")
 			for i := 0; i < 3000; i++ {
 				k := c12Kinds[r.Intn(len(c12Kinds))]
@@ -365,6 +380,24 @@ func (c *c12) plan(cx *Ctx) {
 		})
 		return
 	}
+	c.units = append(c.units, func() []*Item {
+		// QuerySolution: every kind x every sequence over {Scan, Err} of length <= 5
+		var items []*Item
+		for _, k := range c12Kinds {
+			seqs := []string{""}
+			for n, lo := 1, 0; n <= 5; n++ {
+				hi := len(seqs)
+				for _, p := range seqs[lo:hi] {
+					seqs = append(seqs, p+"S", p+"E")
+				}
+				lo = hi
+			}
+			for _, ops := range seqs {
+				items = append(items, c12Item(&c12Meta{Kinds: []string{k}, Ops: []string{ops}, Single: true}))
+			}
+		}
+		return items
+	})
 	for _, k := range c12Kinds {
 		c.units = append(c.units, single(k, 1, 7))
 	}
@@ -505,7 +538,78 @@ func (c *c12) closeRacePool() {
 }
 
 // c12Judge is the oracle proper: a pure function of the sequence and of what one worker run observed.
+// c12JudgeSingle: QuerySolution. The first answer (or the reason why there is none) is all there is; every call
+// returns, Err is nil iff there is an answer, Scan reports that answer, and no goroutine of the library stays behind
+// although the caller has nothing to close.
+func c12JudgeSingle(m *c12Meta, o *run.Outcome) Verdict {
+	v := Verdict{Key: "single " + m.key(-1), Extra: map[string]int64{"cases_query_solution": 1}}
+	if o.Crash != nil {
+		v.Status, v.Msg = Violated, fmt.Sprintf("QuerySolution %s: the process died or blocked: %s", m.key(-1), firstLines(o.Crash.Stderr, 12))
+		if !strings.Contains(o.Crash.Stderr, "all goroutines are asleep") && !strings.Contains(o.Crash.Stderr, "panic") {
+			v.Status = Inconclusive
+		}
+		return v
+	}
+	if o.Res == nil || o.Res.Fatal != "" || len(o.Res.R) == 0 {
+		return Verdict{Status: Inconclusive, Msg: "worker: no result"}
+	}
+	var r proto.SolSeqResult
+	if err := json.Unmarshal(o.Res.R, &r); err != nil {
+		return Verdict{Status: Inconclusive, Msg: err.Error()}
+	}
+	fail := func(f string, a ...interface{}) Verdict {
+		v.Status, v.Msg = Violated, "QuerySolution "+m.key(-1)+": "+fmt.Sprintf(f, a...)
+		return v
+	}
+	for i, op := range r.Ops {
+		_, mod := c12Query(m.Kinds[op.Sol], op.Sol)
+		first := mod.step(0)
+		if op.Panic != "" {
+			return fail("call %d (%s) panicked: %s", i, op.Op, op.Panic)
+		}
+		switch op.Op {
+		case "E":
+			switch {
+			case first.Kind == 'a' && !op.Nil:
+				return fail("Err returned %s although the query has an answer", c12ErrText(op.Err))
+			case first.Kind != 'a' && op.Nil:
+				return fail("Err returned nil although the query has no answer")
+			case first.Kind == 'e' && !c12ErrMatches(first.Err, op.Err):
+				return fail("Err returned %s, expected the terminating error %s", c12ErrText(op.Err), first.Err.String())
+			}
+			v.Extra["single_err_compared"]++
+		case "S":
+			if first.Kind != 'a' {
+				if op.Nil {
+					return fail("Scan succeeded although the query has no answer")
+				}
+				break
+			}
+			if !op.Nil {
+				return fail("Scan failed with %s, expected X=%s", c12ErrText(op.Err), first.Val)
+			}
+			if op.Val != first.Val {
+				return fail("Scan reported X=%s, the first answer is X=%s", op.Val, first.Val)
+			}
+			v.Extra["single_scan_compared"]++
+		}
+	}
+	if r.GFinal > r.G0 {
+		var ss []string
+		for _, g := range r.New {
+			ss = append(ss, fmt.Sprintf("goroutine %d [%s]: %s", g.ID, g.State, firstLines(g.Stack, 8)))
+		}
+		return fail("%d goroutine(s) more than before the call stay behind (the caller of QuerySolution has nothing to close): %s", r.GFinal-r.G0, strings.Join(ss, " | "))
+	}
+	v.Extra["single_goroutines_back_to_baseline"]++
+	v.NonTrivial = len(r.Ops) > 0
+	return v
+}
+
 func c12Judge(m *c12Meta, o *run.Outcome) Verdict {
+	if m.Single {
+		return c12JudgeSingle(m, o)
+	}
 	order := m.order()
 	sols := make([]*c12Sol, len(m.Kinds))
 	var queries []string
@@ -801,6 +905,12 @@ func c12Judge(m *c12Meta, o *run.Outcome) Verdict {
 			}
 			if op.Val != e.val {
 				return fail(i, "Scan reported X=%s, the most recent answer is X=%s", op.Val, e.val)
+			}
+			if op.ValReuse != "" {
+				if op.ValReuse != e.val {
+					return fail(i, "Scan into a destination that received the earlier answers reported X=%s, the most recent answer is X=%s", op.ValReuse, e.val)
+				}
+				ex["scan_into_reused_destination_compared"]++
 			}
 			ex["scan_compared"]++
 		case 'E':
